@@ -1361,7 +1361,15 @@ class Pool:
                     if not shutdown:
                         self._process_cleanup_queues(worker)
                     self.on_process_down(worker)
-            return list(exitcodes.values())
+            # A worker that shrink() told to exit ended the way it was
+            # asked to: report it like a clean exit, so that its status
+            # (the termination signal) is not charged to the restart budget
+            # when another worker's replacement is started.
+            return [
+                EX_OK if getattr(cleaned[pid], '_controlled_termination',
+                                 False) else exitcode
+                for pid, exitcode in exitcodes.items()
+            ]
         return []
 
     def on_partial_read(self, job, worker):
